@@ -304,6 +304,35 @@ pub fn run(opts: &Opts) -> Run {
                 if refused(&a) && refused(&b) {
                     a = vec![a[0].split(" | ").next().unwrap_or("").to_string()];
                     b = vec![b[0].split(" | ").next().unwrap_or("").to_string()];
+                    // "rejected up front": the refused frame must not have become the decoder's current frame — the per-frame
+                    // loop `while !is_finished() { decode_blocks }` a caller may run next must not decode it
+                    run.oracle_checks += 1;
+                    let (p1b, p2b) = (prev.clone(), probe.clone());
+                    let leaked = guarded(move || {
+                        let mut d = FrameDecoder::new();
+                        apply_history(&mut d, &HistItem { frame: p1b.clone(), how: 0, label: "previous frame".into() });
+                        d.set_max_window_size(limit);
+                        let mut src = &p2b[..];
+                        let _ = d.reset(&mut src);
+                        let mut got = 0usize;
+                        let mut guard = 0;
+                        while !d.is_finished() && guard < 10 {
+                            if d.decode_blocks(&mut src, BlockDecodingStrategy::All).is_err() {
+                                break;
+                            }
+                            guard += 1;
+                        }
+                        if let Some(v) = d.collect() {
+                            got += v.len();
+                        }
+                        (got, d.is_finished())
+                    });
+                    if let Ok((got, fin)) = leaked {
+                        if got > 0 || !fin {
+                            run.fail("C11", "rejected_frame_became_current", format!("[{}] after reset refused the frame (window over the limit) the decoder treats it as its current frame: is_finished() = {}, the per-frame loop decoded {} bytes of it", label, fin, got), replay.clone());
+                            run.fail("C07", "reuse_differs", format!("[{}] after a refused reset the reused decoder describes the refused frame (is_finished() = {}, {} bytes decodable)", label, fin, got), replay.clone());
+                        }
+                    }
                 }
                 if a != b {
                     let k = a.iter().zip(b.iter()).position(|(x, y)| x != y).unwrap_or(a.len().min(b.len()));
